@@ -14,9 +14,11 @@ does to the model, so it does not depend on how the function is laid out
 temporaries).  Code that leaves the model gives "not recognised" (no verdict).
 """
 import ast
+import copy as _c
+import re as _re
 
 from vcheck import effects, rules
-from vcheck.core import PyRepo, AnalysisError, call_name, kwarg, norm, walk_no_nested
+from vcheck.core import PyRepo, FuncInfo, AnalysisError, call_name, kwarg, norm, walk_no_nested
 from vcheck.ctable import c_summaries
 
 MANIFEST = dict(
@@ -50,10 +52,11 @@ SEMANTIC = ('R16.1a', 'R16.1b', 'R16.1c', 'R16.1d', 'R16.2', 'R16.3', 'R16.4', '
 def run(chk):
     repo = PyRepo()
     chk.set_templates(repo, semantic=SEMANTIC)
-    eng = effects.Effects(repo, c_summaries())
+    eng = _Effects(repo, c_summaries())
     chk.explanation = MANIFEST["text"]
     chk.trusted = ["ndarray.byteswap / dtype.newbyteorder semantics (the dtype / ndarray model of this module)", "library semantics table", "CPython ast",
-                   "isstring(x) is 'x is a (byte) string'"]
+                   "isstring(x) is 'x is a (byte) string'",
+                   "functools.lru_cache / cache return what the wrapped function returns for hashable arguments (immutable results only)"]
     chk.assume("multi-byte fields of a structured array share one byte order (property quantifier)")
     chk.floor = 60
     r16_1(chk, repo, eng)
@@ -64,10 +67,66 @@ def run(chk):
     r16_6(chk, repo)
 
 
+_lowered = {}
+
+
+def _cond_arms(e):
+    """(test, value-if-true, value-if-false) when the expression picks one of two values by a test: `a if t else b`"""
+    if isinstance(e, ast.IfExp):
+        return e.test, e.body, e.orelse
+    return None
+
+
+def _lower_stmts(stmts):
+    """`return a if t else b` is `if t: return a / else: return b`, the same for a single-target assignment: the statement
+    form is what the flag specialisation of the control-flow graph (and the per-return alias tags) can tell apart"""
+    out = []
+    for st in stmts:
+        for f in ("body", "orelse", "finalbody"):
+            if isinstance(getattr(st, f, None), list) and not isinstance(st, _SCOPES):
+                setattr(st, f, _lower_stmts(getattr(st, f)))
+        for h in getattr(st, "handlers", []) or []:
+            h.body = _lower_stmts(h.body)
+        arms = None
+        if isinstance(st, ast.Return) and st.value is not None:
+            arms = _cond_arms(st.value)
+            mk = lambda v, st=st: ast.copy_location(ast.Return(value=v), st)
+        elif isinstance(st, ast.Assign) and len(st.targets) == 1 and isinstance(st.targets[0], ast.Name):
+            arms = _cond_arms(st.value)
+            mk = lambda v, st=st: ast.copy_location(ast.Assign(targets=[_c.deepcopy(st.targets[0])], value=v, type_comment=None), st)
+        if arms is None:
+            out.append(st)
+            continue
+        t, a, b = arms
+        node = ast.copy_location(ast.If(test=t, body=_lower_stmts([mk(a)]), orelse=_lower_stmts([mk(b)])), st)
+        out.append(ast.fix_missing_locations(node))
+    return out
+
+
+def _lower(fi):
+    """the function with conditional expressions at statement level written as if / else (same line numbers, same meaning)"""
+    k = id(fi.node)
+    if k not in _lowered:
+        if not any(isinstance(x, ast.IfExp) for x in ast.walk(fi.node)):
+            _lowered[k] = (fi, fi)
+        else:
+            node = _c.deepcopy(fi.node)
+            node.body = _lower_stmts(node.body)
+            _lowered[k] = (fi, FuncInfo(fi.qualname, fi.module, fi.cls, node, fi.path))
+    return _lowered[k][1]
+
+
+class _Effects(effects.Effects):
+    """the effect engine on the lowered form of every function it summarises (callees included)"""
+
+    def summary(self, fi, flags=None):
+        return effects.Effects.summary(self, _lower(fi), flags)
+
+
 def r16_1(chk, repo, eng):
     import checks.C15 as C15
     for name in CONVERTERS:
-        fi = repo.func(NU + name)
+        fi = _lower(repo.func(NU + name))
         chk.analysed_unit(fi.qualname)
         for inplace in (False, True):
             for keep in (False, True):
@@ -131,7 +190,29 @@ class _Unrec(Exception):
 
 
 class _Raised(Exception):
-    """the analysed code raises on this input"""
+    """the analysed code raises on this input; etype = name of the builtin exception class when it is known (what a
+    try / except of the analysed code is matched against), None when it is not"""
+
+    def __init__(self, msg="", etype=None):
+        Exception.__init__(self, msg)
+        if etype is None:
+            m = _re.match(r"([A-Z][A-Za-z]*(?:Error|Exception|Iteration))\b", str(msg))
+            if m and _exc_class(m.group(1)) is not None:
+                etype = m.group(1)
+        self.etype = etype
+
+
+def _exc_class(name):
+    import builtins
+    c = getattr(builtins, name, None) if isinstance(name, str) else None
+    return c if isinstance(c, type) and issubclass(c, BaseException) else None
+
+
+class MExc:
+    """an exception object bound by `except ... as e`: opaque"""
+
+    def __init__(self, raised):
+        self.raised = raised
 
 
 class _Return(Exception):
@@ -274,7 +355,7 @@ class MDtype:
         c = new_order[0].lower()
         act = {"s": "S", "<": "<", "l": "<", ">": ">", "b": ">", "=": "=", "n": "=", "|": "|", "i": "|"}.get(c)
         if act is None:
-            raise _Raised("newbyteorder(%r) is not a valid order" % new_order)
+            raise _Raised("newbyteorder(%r) is not a valid order" % new_order, "ValueError")
         return self._nbo(act)
 
     def _nbo(self, act):
@@ -292,19 +373,19 @@ class MDtype:
 
     def item(self, idx):
         if self.fields is None:
-            raise _Raised("indexing a dtype without fields")
+            raise _Raised("indexing a dtype without fields", "KeyError")
         if isinstance(idx, bool):
             raise _Unrec("dtype[bool]")
         if isinstance(idx, int):
             try:
                 return self.fields[idx][1]
             except IndexError:
-                raise _Raised("dtype field index out of range")
+                raise _Raised("dtype field index out of range", "IndexError")
         if isinstance(idx, str):
             for n, d in self.fields:
                 if n == idx:
                     return d
-            raise _Raised("no field %r" % idx)
+            raise _Raised("no field %r" % idx, "KeyError")
         raise _Unrec("dtype[%r]" % (idx,))
 
     # -- what the analysed code may read
@@ -570,15 +651,107 @@ class MSelf:
 
 
 class RFunc:
-    """a function of the repository, evaluated on call"""
+    """a function of the repository, evaluated on call (bare: the function under its decorators)"""
 
-    def __init__(self, interp, fi, selfobj=None):
+    def __init__(self, interp, fi, selfobj=None, bare=False):
         self.interp = interp
         self.fi = fi
         self.selfobj = selfobj
+        self.bare = bare
 
     def __call__(self, *a, **k):
-        return self.interp.call(self.fi, list(a), dict(k), self.selfobj)
+        it = self.interp
+        if not self.bare:
+            return it.call(self.fi, list(a), dict(k), self.selfobj)
+        prev, it._undecorated = getattr(it, "_undecorated", None), self.fi.qualname
+        try:
+            return it.call(self.fi, list(a), dict(k), self.selfobj)
+        finally:
+            it._undecorated = prev
+
+
+class _ModCtx:
+    """stands for 'module-level code of this module' where the evaluator wants the function a piece of code belongs to"""
+
+    def __init__(self, mod):
+        self.module, self.cls, self.node = mod, None, None
+        self.qualname, self.name = mod.name, "<module>"
+
+
+class MModule:
+    """a module of the repository as an object: its functions, imports and module-level values"""
+
+    def __init__(self, interp, mod):
+        self.interp, self.mod = interp, mod
+
+    def m_getattr(self, name):
+        sub = self.interp.repo.modules.get(self.mod.name + "." + name)
+        if sub is not None and name not in self.mod.funcs and not _module_binders(self.mod, name):
+            return MModule(self.interp, sub)
+        return self.interp.global_lookup(self.mod, name, _ModCtx(self.mod))
+
+
+def _hashable(v):
+    if v is None or isinstance(v, (bool, int, float, str, bytes, MDtype, MType, RFunc)):
+        return True
+    if isinstance(v, (tuple, frozenset)):
+        return all(_hashable(x) for x in v)
+    if isinstance(v, (MArray, list, dict, set)):
+        return False
+    raise _Unrec("hashability of %r" % (v,))
+
+
+def _immutable(v):
+    if v is None or isinstance(v, (bool, int, float, str, bytes, MDtype)):
+        return True
+    return isinstance(v, (tuple, frozenset)) and all(_immutable(x) for x in v)
+
+
+def _memoised(f):
+    """functools.lru_cache(...)(f) / functools.cache(f): the same results as f for hashable arguments (an unhashable one is a
+    TypeError), provided what f returns cannot be modified by the callers that share it.  Every call is evaluated afresh: an f
+    that answers differently for two equal keys is then judged on each of them."""
+    if not isinstance(f, (RFunc, RLambda, _Fn)):
+        raise _Unrec("memoisation of %r" % (f,))
+
+    def call(*a, **k):
+        if not all(_hashable(x) for x in list(a) + list(k.values())):
+            raise _Raised("TypeError: unhashable argument of a memoised function", "TypeError")
+        r = f(*a, **k)
+        if not _immutable(r):
+            raise _Unrec("a memoised function returns a mutable object")
+        return r
+    return _Fn(call, "memoised")
+
+
+def _lru_cache(*a, **k):
+    if len(a) == 1 and not k and isinstance(a[0], (RFunc, RLambda, _Fn)):
+        return _memoised(a[0])
+    if len(a) <= 2 and set(k) <= {"maxsize", "typed"} and all(x is None or isinstance(x, (bool, int)) for x in list(a) + list(k.values())):
+        return _Fn(_memoised, "functools.cache")
+    raise _Unrec("functools.lru_cache with these arguments")
+
+
+def _partial(f, *a, **k):
+    if not isinstance(f, (RFunc, RLambda, _Fn, MType)):
+        raise _Unrec("functools.partial of %r" % (f,))
+    return _Fn(lambda *b, **kk: f(*(a + b), **dict(k, **kk)), "partial")
+
+
+_KEEPING_DECORATORS = ("functools.lru_cache", "functools.cache", "functools.wraps-of")
+
+
+class MFunctools:
+    def m_getattr(self, name):
+        if name == "lru_cache":
+            return _Fn(_lru_cache, "functools.lru_cache")
+        if name == "cache":
+            return _Fn(_memoised, "functools.cache")
+        if name == "partial":
+            return _Fn(_partial, "functools.partial")
+        if name == "wraps":
+            return _Fn(lambda wrapped, **k: _Fn(lambda g: g, "functools.wraps-of"), "functools.wraps")
+        raise _Unrec("functools.%s is not modelled" % name)
 
 
 class RLambda:
@@ -614,13 +787,13 @@ _NATIVE_METHODS = {
     set: {"add", "discard", "copy"},
 }
 _NATIVE_TYPES = (str, list, tuple, dict, set, frozenset, int, float, bool, bytes)
-_IMPORT_MODELS = {"numpy": "numpy", "copy": "copy", "sys": "sys"}
+_IMPORT_MODELS = {"numpy": "numpy", "copy": "copy", "sys": "sys", "functools": "functools"}
 
 
 def _truth(v):
     if v is None or isinstance(v, (bool, int, float, str, bytes, tuple, list, dict, set, frozenset, range)):
         return bool(v)
-    if isinstance(v, (MDtype, RFunc, RLambda, _Fn, MType)):
+    if isinstance(v, (MDtype, RFunc, RLambda, _Fn, MType, MModule)):
         return True
     raise _Unrec("truth value of %r" % (v,))
 
@@ -715,25 +888,30 @@ class Interp:
         self.depth = 0
         self.visited = set()
         self.np = MNumpy(host_little)
-        self.models = {"numpy": self.np, "copy": MCopy(), "sys": MSys(host_little)}
+        self.models = {"numpy": self.np, "copy": MCopy(), "sys": MSys(host_little), "functools": MFunctools()}
+        self.handling = []
         self.builtins = {
             "any": any, "all": all, "len": len, "range": range, "enumerate": enumerate, "zip": zip, "reversed": reversed,
             "sorted": sorted, "min": min, "max": max, "sum": sum, "repr": repr, "abs": abs,
             "map": lambda f, *xs: list(map(f, *xs)), "filter": lambda f, xs: [x for x in xs if _truth(f(x) if f is not None else x)],
             "isinstance": _isinstance, "bool": _truth, "iter": iter, "next": next,
         }
+        self.builtins.update({"getattr": self.b_getattr, "hasattr": self.b_hasattr})
         self.builtins = {k: _Fn(v, k) for k, v in self.builtins.items()}
         for t in _NATIVE_TYPES:
             if t is not bool:
                 self.builtins[t.__name__] = t
-        for n in ("TypeError", "ValueError", "RuntimeError", "KeyError", "IndexError", "Exception"):
-            self.builtins[n] = MType(n)
+        import builtins as _b
+        for n in dir(_b):
+            if _exc_class(n) is not None:
+                self.builtins[n] = MType(n)
 
     # -- entry ----------------------------------------------------------
     def run(self, fi, args=(), kwargs=None, selfobj=None):
         """('ok', value) | ('raise', text) | ('unrec', text)"""
         self.steps = 0
         self.depth = 0
+        self.handling = []
         try:
             return ("ok", self.call(fi, list(args), dict(kwargs or {}), selfobj))
         except _Raised as e:
@@ -761,7 +939,7 @@ class Interp:
                 defaults[p.arg] = d
         if len(args) > len(pos):
             if a.vararg is None:
-                raise _Raised("%s() takes %d positional arguments, %d given" % (what, len(pos), len(args)))
+                raise _Raised("%s() takes %d positional arguments, %d given" % (what, len(pos), len(args)), "TypeError")
             env[a.vararg.arg] = tuple(args[len(pos):])
             args = args[:len(pos)]
         elif a.vararg is not None:
@@ -773,12 +951,12 @@ class Interp:
         for k, v in kwargs.items():
             if k in allowed:
                 if k in env and k in pos[:len(args)]:
-                    raise _Raised("%s() got multiple values for %s" % (what, k))
+                    raise _Raised("%s() got multiple values for %s" % (what, k), "TypeError")
                 env[k] = v
             elif a.kwarg is not None:
                 extra[k] = v
             else:
-                raise _Raised("%s() got an unexpected keyword argument %r" % (what, k))
+                raise _Raised("%s() got an unexpected keyword argument %r" % (what, k), "TypeError")
         if a.kwarg is not None:
             env[a.kwarg.arg] = extra
         for p in pos + [x.arg for x in a.kwonlyargs]:
@@ -786,14 +964,23 @@ class Interp:
                 if p in defaults:
                     env[p] = self.ev(defaults[p], {}, fi)
                 else:
-                    raise _Raised("%s() missing argument %s" % (what, p))
+                    raise _Raised("%s() missing argument %s" % (what, p), "TypeError")
 
     def call(self, fi, args, kwargs, selfobj=None):
         if fi.name == "isstring" and len(args) == 1 and not kwargs:
             # trusted summary: the repository's isstring() is "is a (byte) string" (python/numpy version switch inside)
             return isinstance(args[0], (str, bytes))
-        if isinstance(fi.node, ast.AsyncFunctionDef) or rules.is_generator(fi.node) or fi.node.decorator_list:
-            raise _Unrec("%s is a generator / decorated function" % fi.qualname)
+        if isinstance(fi.node, ast.AsyncFunctionDef) or rules.is_generator(fi.node):
+            raise _Unrec("%s is a generator" % fi.qualname)
+        if fi.node.decorator_list and not getattr(self, "_undecorated", None) == fi.qualname:
+            # only decorators that keep what the function computes: memoisation (functools.lru_cache / cache), functools.wraps
+            f = RFunc(self, fi, selfobj, bare=True)
+            for d in reversed(fi.node.decorator_list):
+                dec = self.ev(d, {}, _ModCtx(fi.module))
+                if not (isinstance(dec, _Fn) and dec.name in _KEEPING_DECORATORS):
+                    raise _Unrec("%s is decorated with %s" % (fi.qualname, norm(d)))
+                f = dec(f)
+            return f(*args, **kwargs)
         self.visited.add(fi.qualname)
         self.depth += 1
         if self.depth > 14:
@@ -847,19 +1034,45 @@ class Interp:
     def lookup(self, name, env, fi):
         if name in env:
             return env[name]
-        mod = fi.module
+        return self.global_lookup(fi.module, name, fi)
+
+    def imported(self, mod, name):
+        """the object a module-level import of `mod` binds `name` to"""
+        tgt = mod.imports[name]
+        if tgt in self.models:
+            return self.models[tgt]
+        parts = tgt.split(".")
+        if parts[0] in self.models:
+            o = self.models[parts[0]]
+            for p in parts[1:]:
+                o = self.getattr(o, p)
+            return o
+        full = self.repo.resolve_name(mod, name)
+        if full in self.repo.funcs:
+            return RFunc(self, self.repo.funcs[full])
+        for t in (full, tgt):
+            if t in self.repo.modules:
+                return MModule(self, self.repo.modules[t])
+        for t in (full, tgt):
+            mname, _, attr = t.rpartition(".")
+            m2 = self.repo.modules.get(mname)
+            if m2 is not None and m2 is not mod and (attr in m2.funcs or attr in m2.imports or _module_binders(m2, attr)):
+                self.depth += 1
+                try:
+                    if self.depth > 14:
+                        raise _Unrec("import depth")
+                    return MModule(self, m2).m_getattr(attr)
+                finally:
+                    self.depth -= 1
+        raise _Unrec("imported name %s (%s) is not modelled" % (name, tgt))
+
+    def global_lookup(self, mod, name, fi):
         if name in mod.funcs:
             return RFunc(self, mod.funcs[name])
         if name in mod.imports:
-            tgt = mod.imports[name]
-            if tgt in self.models:
-                return self.models[tgt]
-            full = self.repo.resolve_name(mod, name)
-            if full in self.repo.funcs:
-                return RFunc(self, self.repo.funcs[full])
-            raise _Unrec("imported name %s (%s) is not modelled" % (name, tgt))
+            return self.imported(mod, name)
         if _module_binders(mod, name):
-            return self.module_value(mod, name, len(mod.tree.body), fi)
+            return self.module_value(mod, name, len(mod.tree.body), fi if fi.module is mod else _ModCtx(mod))
         if name in self.builtins:
             return self.builtins[name]
         for sm in mod.star:
@@ -936,10 +1149,21 @@ class Interp:
         elif isinstance(st, ast.Pass):
             pass
         elif isinstance(st, ast.Raise):
-            raise _Raised("raise %s" % (norm(st.exc)[:80] if st.exc is not None else ""))
+            if st.exc is None:
+                if self.handling:
+                    raise self.handling[-1]
+                raise _Raised("raise outside of a handler", "RuntimeError")
+            x = st.exc.func if isinstance(st.exc, ast.Call) else st.exc
+            etype = None
+            if isinstance(x, ast.Name) and x.id not in env and not _module_binders(fi.module, x.id) and x.id not in fi.module.imports \
+                    and x.id not in fi.module.classes and _exc_class(x.id) is not None:
+                etype = x.id
+            raise _Raised("raise %s" % norm(st.exc)[:80], etype)
+        elif isinstance(st, ast.Try):
+            self.try_stmt(st, env, fi)
         elif isinstance(st, ast.Assert):
             if not _truth(self.ev(st.test, env, fi)):
-                raise _Raised("assert %s" % norm(st.test))
+                raise _Raised("assert %s" % norm(st.test), "AssertionError")
         elif isinstance(st, ast.Delete):
             for t in st.targets:
                 if isinstance(t, ast.Subscript):
@@ -1000,9 +1224,9 @@ class Interp:
                                 "tuple_iterator", "list_reverseiterator", "map", "filter"):
             return list(v)
         if v is None or isinstance(v, (bool, int, float)):
-            raise _Raised("%r is not iterable" % (v,))
+            raise _Raised("%r is not iterable" % (v,), "TypeError")
         if isinstance(v, MDtype):
-            raise _Raised("a dtype is not iterable")
+            raise _Raised("a dtype is not iterable", "TypeError")
         raise _Unrec("iteration over %r" % (v,))
 
     # -- expressions ----------------------------------------------------
@@ -1031,15 +1255,7 @@ class Interp:
         if isinstance(e, ast.Name):
             return self.lookup(e.id, env, fi)
         if isinstance(e, ast.Attribute):
-            o = self.ev(e.value, env, fi)
-            if hasattr(o, "m_getattr"):
-                return o.m_getattr(e.attr)
-            for t, names in _NATIVE_METHODS.items():
-                if isinstance(o, t) and not isinstance(o, bool) and e.attr in names:
-                    return _Fn(getattr(o, e.attr), "%s.%s" % (t.__name__, e.attr))
-            if o is None:
-                raise _Raised("None has no attribute %s" % e.attr)
-            raise _Unrec("attribute %s of %r" % (e.attr, o))
+            return self.getattr(self.ev(e.value, env, fi), e.attr)
         if isinstance(e, ast.Subscript):
             o = self.ev(e.value, env, fi)
             i = self.index(e.slice, env, fi)
@@ -1053,7 +1269,7 @@ class Interp:
                 except (IndexError, KeyError, TypeError) as ex:
                     raise _Raised("%s: %s" % (type(ex).__name__, ex))
             if o is None:
-                raise _Raised("None is not subscriptable")
+                raise _Raised("None is not subscriptable", "TypeError")
             raise _Unrec("subscript of %r" % (o,))
         if isinstance(e, ast.Call):
             return self.callexpr(e, env, fi)
@@ -1135,6 +1351,80 @@ class Interp:
         if isinstance(e, ast.Lambda):
             return RLambda(self, e, env, fi)
         raise _Unrec("expression %s" % type(e).__name__)
+
+    def getattr(self, o, attr):
+        if hasattr(o, "m_getattr"):
+            return o.m_getattr(attr)
+        for t, names in _NATIVE_METHODS.items():
+            if isinstance(o, t) and not isinstance(o, bool) and attr in names:
+                return _Fn(getattr(o, attr), "%s.%s" % (t.__name__, attr))
+        if _plain(o) and not isinstance(o, slice) and isinstance(attr, str) and not hasattr(o, attr):
+            raise _Raised("AttributeError: %s object has no attribute %s" % (type(o).__name__, attr), "AttributeError")
+        raise _Unrec("attribute %s of %r" % (attr, o))
+
+    def b_getattr(self, o, name, *default):
+        """the builtin getattr / hasattr: decided where the model knows the object's attributes"""
+        if not isinstance(name, str) or len(default) > 1:
+            raise _Unrec("getattr(_, %r, ...)" % (name,))
+        try:
+            return self.getattr(o, name)
+        except _Raised as ex:
+            if default and ex.etype == "AttributeError":
+                return default[0]
+            raise
+
+    def b_hasattr(self, o, name):
+        try:
+            self.b_getattr(o, name)
+        except _Raised as ex:
+            if ex.etype == "AttributeError":
+                return False
+            raise
+        return True
+
+    def try_stmt(self, st, env, fi):
+        """try / except / else / finally over the exceptions the analysed code raises in the model"""
+        if getattr(st, "handlers", None) is None or type(st).__name__ != "Try":
+            raise _Unrec("statement %s" % type(st).__name__)
+        try:
+            try:
+                self.block(st.body, env, fi)
+            except _Raised as ex:
+                for h in st.handlers:
+                    if self.handler_matches(h, ex, env, fi):
+                        if h.name:
+                            env[h.name] = MExc(ex)
+                        self.handling.append(ex)
+                        try:
+                            self.block(h.body, env, fi)
+                        finally:
+                            self.handling.pop()
+                        if h.name:
+                            env.pop(h.name, None)
+                        break
+                else:
+                    raise
+            else:
+                self.block(st.orelse, env, fi)
+        except _Unrec:
+            raise
+        except (_Raised, _Return, _Break, _Continue):
+            self.block(st.finalbody, env, fi)      # control leaving the finally block itself replaces the one in flight
+            raise
+        self.block(st.finalbody, env, fi)
+
+    def handler_matches(self, h, ex, env, fi):
+        if h.type is None:
+            return True
+        t = self.ev(h.type, env, fi)
+        ts = t if isinstance(t, tuple) else (t,)
+        if not ts or not all(isinstance(x, MType) and _exc_class(x.name) is not None for x in ts):
+            raise _Unrec("except %s" % norm(h.type))
+        if any(x.name == "BaseException" for x in ts):
+            return True
+        if ex.etype is None:
+            raise _Unrec("the class of the exception (%s) is not known to the model" % ex)
+        return any(issubclass(_exc_class(ex.etype), _exc_class(x.name)) for x in ts)
 
     def compare(self, o, a, b):
         if isinstance(o, (ast.Is, ast.IsNot)):
@@ -1508,12 +1798,81 @@ def r16_4(chk, repo):
     _note_units(chk, repo)
 
 
+def _descr_kind(e, fn, depth=0):
+    """'dtype' / 'descr' / None: what an argument expression is, read off the attribute it ends in (`<x>.dtype`,
+    `<x>.dtype.descr`, `<x>.descr`), following local names to every value assigned to them in the function"""
+    if isinstance(e, ast.Attribute) and e.attr in ("dtype", "descr"):
+        return e.attr
+    if isinstance(e, ast.Name) and depth < 4:
+        kinds = set()
+        for x in walk_no_nested(fn):
+            if isinstance(x, ast.Assign) and any(isinstance(t, ast.Name) and t.id == e.id for t in x.targets):
+                kinds.add(_descr_kind(x.value, fn, depth + 1))
+        kinds.discard("call")
+        if len(kinds) == 1:
+            return kinds.pop()
+        return None
+    if isinstance(e, ast.Call):
+        return "call"          # the result of a stripper assigned back to the same name
+    return None
+
+
+def _header_strippers(repo):
+    """-> ([(qualname, 'dtype' | 'descr')], '') for the repository functions that the value SFile._make_header stores under
+    the header key "_DTYPE" is passed through, found by data flow from that store; (None, why) when that is not recognised"""
+    fi = repo.func("esutil.sfile.SFile._make_header")
+    fn = fi.node
+    stores = [x for x in walk_no_nested(fn) if isinstance(x, ast.Assign) for t in x.targets
+              if isinstance(t, ast.Subscript) and isinstance(t.slice, ast.Constant) and t.slice.value == "_DTYPE"]
+    if not stores:
+        return None, "no store to the header key \"_DTYPE\" found in %s" % fi.qualname
+    todo, seen, calls = [st.value for st in stores], set(), []
+    while todo:
+        e = todo.pop()
+        for x in ast.walk(e):
+            if isinstance(x, ast.Call):
+                calls.append(x)
+            elif isinstance(x, ast.Name) and x.id not in seen:
+                seen.add(x.id)
+                for y in walk_no_nested(fn):
+                    if isinstance(y, ast.Assign) and any(isinstance(t, ast.Name) and t.id == x.id for t in y.targets):
+                        todo.append(y.value)
+    out = []
+    for c in calls:
+        f = c.func
+        callee = None
+        if isinstance(f, ast.Attribute) and isinstance(f.value, ast.Name) and f.value.id == "self":
+            callee = fi.module.funcs.get("%s.%s" % (fi.cls, f.attr))
+        else:
+            from vcheck.core import dotted_name
+            d = dotted_name(f)
+            if d:
+                callee = repo.funcs.get(repo.resolve_name(fi.module, d))
+        if callee is None:
+            continue
+        args = list(c.args) + [k.value for k in c.keywords if k.arg is not None]
+        kind = _descr_kind(args[0], fn) if len(args) == 1 else None
+        if kind not in ("dtype", "descr"):
+            return None, "what %s passes to %s is not recognised as a dtype or a descriptor" % (fi.qualname, callee.qualname)
+        if (callee.qualname, kind) not in out:
+            out.append((callee.qualname, kind))
+    if not out:
+        return None, "no call of a repository function on the way to the header key \"_DTYPE\" in %s" % fi.qualname
+    return out, ""
+
+
 def r16_5(chk, repo):
     """the descriptor strippers: result = one tuple per input entry, in order, with name and shape kept and the type string
     without its first (order) character; the caller's descriptor is left alone"""
-    import copy as _c
-    strippers = [("esutil.numpy_util.descr_to_native", "descr"), ("esutil.recfile.Util.remove_dtype_byteorder", "dtype"),
-                 ("esutil.sfile.SFile._remove_byteorder", "descr")]
+    strippers = [("esutil.numpy_util.descr_to_native", "descr"), ("esutil.recfile.Util.remove_dtype_byteorder", "dtype")]
+    # the third one is whatever strips the descriptor that SFile writes into the header of a text file (a private helper of
+    # SFile, or one of the two above)
+    found, why = _header_strippers(repo)
+    if found is None:
+        chk.ob("R16.5", "esutil.sfile.SFile._make_header::text-header-stripper", None, repo.func("esutil.sfile.SFile._make_header").where(),
+               "the descriptor stored under _DTYPE in the header of a text file goes through a descriptor stripper -- " + why)
+    else:
+        strippers += [x for x in found if x not in strippers]
     for q, takes in strippers:
         fi = repo.func(q)
         chk.analysed_unit(q)
